@@ -15,6 +15,8 @@ struct mock_script
     int sto_fail_persistent;
     int cam_empty_every;             // every n-th get_frame returns 0 bytes (aborted write); 0 = never
     int cam_start_fails[MOCK_NDEV];  // number of upcoming camera starts that fail
+    int desc_fails[MOCK_NDEV];       // number of upcoming opens of this device whose describe() fails after a successful open()
+    int just_opened[MOCK_NDEV];
     int open_fails[MOCK_NDEV];       // number of upcoming opens of this device that fail (busy / unplugged)
     unsigned long log_len;           // number of DRV lines so far (for state digests)
 };
